@@ -554,9 +554,10 @@ fn macro_move_phase(thorough: bool, c16: bool) -> Phase {
         (e, p)
     };
     // one move deeper on a reduced target set {0,1,n/2,n-4,n-3,n-2,n-1,n}
-    let mk8 = |n: usize| -> (Vec<f64>, Vec<usize>, usize) { (iota(n), vec![0, 1, n / 2, n - 4, n - 3, n - 2, n - 1, n], if thorough { 6 } else { 5 }) };
+    let mk8 = |n: usize| -> (Vec<f64>, Vec<usize>, usize) { (iota(n), vec![0, 1, n / 2, n - 4, n - 3, n - 2, n - 1, n], 5) };
+    // (thorough: more sizes at four moves, and five moves on the two small functions - five moves on every size takes hours)
     let base_depth = if thorough { 5 } else { 4 };
-    let mut cfgs: Vec<(Vec<f64>, Vec<usize>, usize)> = (if thorough { vec![mk(5), mk(13), mk(20), mk(36), mk(70), mk(130)] } else { vec![mk(5), mk(13), mk(36), mk(70)] }).into_iter().map(|(e, p)| (e, p, base_depth)).collect();
+    let mut cfgs: Vec<(Vec<f64>, Vec<usize>, usize)> = (if thorough { vec![mk(5), mk(13), mk(20), mk(36), mk(70), mk(130)] } else { vec![mk(5), mk(13), mk(36), mk(70)] }).into_iter().map(|(e, p)| { let d = if thorough && e.len() <= 13 { 5 } else { 4 }; (e, p, d) }).collect();
     cfgs.push(mk8(13));
     cfgs.push(mk8(20));
     // very long monotone runs: two moves on 300 (1030 thorough) pieces
